@@ -1,5 +1,6 @@
 use crate::generator::{Derive, Features};
 use proc_macro2::{Ident, Span};
+use quote::format_ident;
 
 pub(crate) struct Names {
     pub(crate) ident_as_str: Ident,
@@ -28,14 +29,14 @@ impl Names {
             ident_from_str_fn: Ident::new(&features.from_str_fn.name, Span::call_site()),
             ident_iter_fn: Ident::new(&features.iter.name, Span::call_site()),
             ident_iter_struct: match features.iter.struct_name {
-                None => Ident::new(&format!("{ident_enum}Iter"), Span::call_site()),
+                None => format_ident!("{}Iter", ident_enum, span = Span::call_site()),
                 Some(ref name) => Ident::new(name, Span::call_site()),
             },
             ident_max: Ident::new(&features.max_const.name, Span::call_site()),
             ident_min: Ident::new(&features.min_const.name, Span::call_site()),
             ident_names_fn: Ident::new(&features.names.name, Span::call_site()),
             ident_names_struct: match features.names.struct_name {
-                None => Ident::new(&format!("{ident_enum}Names"), Span::call_site()),
+                None => format_ident!("{}Names", ident_enum, span = Span::call_site()),
                 Some(ref name) => Ident::new(name, Span::call_site()),
             },
             ident_next: Ident::new(&features.next_fn.name, Span::call_site()),
